@@ -396,7 +396,7 @@ def refute(unit, names):
     return out
 
 
-def discharge(run, formula, npc=None, nax=None, timeout_ms=10000):
+def discharge(run, formula, npc=None, nax=None, timeout_ms=10000, _retry=False):
     """pc[:npc] & axioms[:nax] |= formula ?  ('unsat' proved | 'sat' | 'unknown', model/reason, seconds)."""
     t0 = time.time()
     sol = z3.Solver()
@@ -411,6 +411,10 @@ def discharge(run, formula, npc=None, nax=None, timeout_ms=10000):
         sol.add(z3.Distinct(*lits))
     sol.add(z3.Not(formula))
     r = sol.check()
+    if r == z3.unknown and 'cancel' in sol.reason_unknown() and not _retry:
+        # 'canceled' / 'push canceled': the resource limit hit inside a push -- not an answer; retry once, fresh solver, 3x budget
+        v, m, dt2 = discharge(run, formula, npc, nax, timeout_ms=timeout_ms * 3, _retry=True)
+        return v, m, time.time() - t0
     dt = time.time() - t0
     if r == z3.unsat:
         return 'unsat', None, dt
@@ -517,6 +521,10 @@ def run_unit(chk, unit):
     for n in rproved:
         if st.get(n) not in ('proved',):
             st[n] = 'rknown'
+    for n in list(unit.known) + list(unit.rknown):
+        if st.get(n) == 'proved':
+            CHK.note('NOTE stale known finding: %s is recorded as open in known_findings.d/C20.json but the obligation is proved on this tree' % n)
+            print('NOTE property=C20 stale known finding (obligation now proved): %s' % n)
     hints_ok = all(s == 'proved' for n, s in st.items() if not n.startswith('C20.'))
     posts = [n for n in by if n.startswith('C20.')]
     open_posts = [n for n in posts if st[n] in ('sat', 'unknown')] if hints_ok else list(posts)
@@ -1934,8 +1942,11 @@ def noisy_frame_obligations(chk):
                 if not bad:
                     chk.obligation(name, entry['qual'], 'frame', report.PROVED, dt / 2, detail=detail)
                 else:
-                    sc = {'kind': 'noisy_reproducible', 'noise_type': 'SEVERE_GAUSSIAN', 'seed': 7,
-                          'base': {'params': [{'name': 'x'}], 'metrics': [{'name': 'obj', 'goal': 'MINIMIZE'}]}, 'batch': [{'params': {'x': 0.5}}]}
+                    ntype = {'Noisy._uniform_noise': 'SEVERE_UNIFORM', 'Noisy._cauchy_noise': 'SEVERE_SELDOM_CAUCHY',
+                             'Noisy._additive_normal_noise': 'SEVERE_ADDITIVE_GAUSSIAN'}.get(entry['name'], 'SEVERE_GAUSSIAN')
+                    sc = {'kind': 'noisy_reproducible', 'noise_type': ntype, 'seed': 7,
+                          'base': {'params': [{'name': 'x'}], 'metrics': [{'name': 'obj', 'goal': 'MINIMIZE'}], 'default_value': 2.0},
+                          'batch': [{'params': {'x': 0.5}}]}
                     obs = run_replay(sc)
                     rep = (not obs['reproducible']) if 'reproducible' in obs else None
                     chk.obligation(name, entry['qual'], 'frame', report.VIOLATED, dt / 2, detail=dict(detail, violations=[str(b) for b in bad[:6]]),
@@ -2097,6 +2108,189 @@ def units_noisy():
                  scenario=no_scenario, native=native)]
 
 
+# =========================================================================================== seeded noise: the generator is a function of the seed
+EF = PKG + 'experimenter_factory'
+
+
+def term_consts(t):
+    out, todo, seen = set(), [t], set()
+    while todo:
+        x = todo.pop()
+        if x.get_id() in seen:
+            continue
+        seen.add(x.get_id())
+        if z3.is_const(x) and x.decl().kind() == z3.Z3_OP_UNINTERPRETED:
+            out.add(x.decl().name())
+        todo.extend(x.children())
+    return out
+
+
+def seed_case(run, seed):
+    """'seed=0' if the path condition forces the (not-None) seed to be falsy, 'seed!=0' if it forces it to be truthy, else 'any seed'."""
+    if discharge(run, seed == 0, timeout_ms=3000)[0] == 'unsat':
+        return 'seed=0'
+    if discharge(run, seed != 0, timeout_ms=3000)[0] == 'unsat':
+        return 'seed!=0'
+    return 'any seed'
+
+
+def seed_value(run, seed):
+    sol = z3.Solver()
+    for c in run.pc:
+        sol.add(c)
+    if sol.check() == z3.sat:
+        return sol.model().eval(seed, model_completion=True).as_long()
+    return 0
+
+
+def rng_arg_ok(arg, allowed):
+    """the argument of default_rng(...) on this path is a value determined by the seed: a python constant other than None, or a term
+    whose only free symbols are the seed.  None (or no argument) means OS entropy."""
+    if arg is None:
+        return False, 'default_rng(None): the generator is seeded from OS entropy'
+    if isinstance(arg, (int, bool)):
+        return True, 'constant %r' % (arg,)
+    if z3.is_expr(arg) and arg.sort() == z3.IntSort() and term_consts(arg) <= allowed:
+        return True, 'term %s' % arg
+    return False, 'default_rng(%r): not a function of the seed' % (arg,)
+
+
+def noise_entry(via):
+    def entry(it):
+        run = it.run
+        st = Setup(it)
+        run.rng_constructions, run.partials, run.ambient_random = [], [], []
+        run.seed = z3.Int('seed')              # EVERY seed that is not None: any int, 0 and other falsy values included
+        mod = ModuleInfo.get(NO)
+        noise = z3.Const('noise_type', Str)
+        if via == 'create_noise_fn':
+            return it.call(E.FuncVal(mod, mod.funcs['_create_noise_fn']), [noise], {'dimension': X.Abs('dimension'), 'seed': run.seed})
+        cls = mod.classes['NoisyExperimenter']
+        return it.call(it.getattr(cls, 'from_type'), [st.base, noise], {'seed': run.seed})
+    return entry
+
+
+def factory_seed_entry(it):
+    """the `seed` argument of the NoisyExperimenter.from_type(...) call inside SingleObjectiveExperimenterFactory.__call__, evaluated from
+    its real AST with symbolic (not-None) factory fields"""
+    run = it.run
+    X.init_heap(run)
+    cls = cls_of(EF, 'SingleObjectiveExperimenterFactory')
+    fn = cls.methods['__call__']
+    calls = [c for c in ast.walk(fn) if isinstance(c, ast.Call) and isinstance(c.func, ast.Attribute) and c.func.attr == 'from_type'
+             and 'NoisyExperimenter' in ast.unparse(c.func)]
+    if len(calls) != 1:
+        raise Unsupported('expected exactly one NoisyExperimenter.from_type call in the factory, found %d' % len(calls))
+    call = calls[0]
+    kws = {k.arg: k.value for k in call.keywords}
+    expr = kws.get('seed', call.args[2] if len(call.args) > 2 else None)
+    if expr is None:
+        run.factory_arg, run.factory_fields = 'omitted', {}
+        return None
+    me = fn.args.args[0].arg
+    fields = sorted({n.attr for n in ast.walk(expr) if isinstance(n, ast.Attribute) and isinstance(n.value, ast.Name) and n.value.id == me})
+    spec = A.class_spec(cls)
+    for f in fields:
+        fs = spec.field(f) if spec is not None else None
+        if fs is None or getattr(fs, 'converter', None) is not None:
+            raise Unsupported('factory attribute %s is not a plain attrs field' % f)
+    run.factory_fields = {f: z3.Int('factory_' + f) for f in fields}
+    run.seed = run.factory_fields[fields[0]] if len(fields) == 1 else None
+    run.factory_arg = it.eval(E.Frame(cls.mod, {me: Obj(cls, dict(run.factory_fields))}), expr)
+    # ... and what NoisyExperimenter.from_type does with that argument (same run: the plumbing is judged end to end)
+    st = Setup(it)
+    run.rng_constructions, run.partials, run.ambient_random = [], [], []
+    ncls = ModuleInfo.get(NO).classes['NoisyExperimenter']
+    return it.call(it.getattr(ncls, 'from_type'), [st.base, z3.Const('noise_type', Str)], {'seed': run.factory_arg})
+
+
+def noisy_seed_obligations(chk):
+    """C20 'noise wrappers with a seed are reproducible', as data flow on the real ASTs: on every path of _create_noise_fn /
+    NoisyExperimenter.from_type, for every seed that is not None (Python truthiness of `x or y` exact: 0 is falsy), every generator is
+    default_rng(arg) with arg a function of the seed only and never None; the noise draws from nothing else."""
+    for label, via, fq in (('Noisy._create_noise_fn', 'create_noise_fn', '_create_noise_fn'), ('Noisy.from_type', 'from_type', 'NoisyExperimenter.from_type')):
+        t0 = time.time()
+        chk.function(NO, fq)
+        paths = E.explore(noise_entry(via), max_paths=400, deadline_s=40)
+        bad_paths = sorted({p.value for p in paths if p.kind == 'unsupported'})
+        if bad_paths:
+            chk.obligation('C20.%s.seeded_rng.supported' % label, fq, 'checker', report.ERROR, 0.0, detail='; '.join(bad_paths)[:800])
+            continue
+        res = {}          # obligation name -> [(ok, text, seed value)]
+        nlive = 0
+        for p in paths:
+            if p.kind not in ('return', 'raise'):
+                continue
+            run = p.run
+            nlive += 1
+            case = seed_case(run, run.seed)
+            rngs = run.rng_constructions
+            checks = [rng_arg_ok(r.seed_arg, {'seed'}) for r in rngs]
+            ok = all(c[0] for c in checks) and (len(rngs) >= 1 or p.kind == 'raise')
+            txt = '%s: %s' % (p.describe(), '; '.join(c[1] for c in checks) or 'no generator constructed')
+            res.setdefault('C20.%s.seeded_rng[%s]' % (label, case), []).append((ok, txt, seed_value(run, run.seed)))
+            stray = [q for q in run.partials if 'rng' in q.kw and not any(q.kw['rng'] is r for r in rngs)]
+            ok2 = not stray and not run.ambient_random and len(rngs) <= 1
+            res.setdefault('C20.%s.draws_only_from_seeded_rng' % label, []).append(
+                (ok2, '%s: %d generator(s), ambient=%s, stray partial rng=%d' % (p.describe(), len(rngs), run.ambient_random, len(stray)), seed_value(run, run.seed)))
+        if nlive < 4:
+            chk.obligation('C20.%s.seeded_rng.vacuity' % label, fq, 'checker', report.ERROR, 0.0, detail='only %d paths' % nlive)
+        dt = (time.time() - t0) / max(len(res), 1)
+        for name, items in sorted(res.items()):
+            bad = [i for i in items if not i[0]]
+            detail = {'paths': len(items), 'rule': 'data flow on every path of the real AST; `x or y` with Python truthiness (0 and False are falsy)'}
+            if not bad:
+                chk.obligation(name, fq, 'paths', report.PROVED, dt, detail=detail)
+                continue
+            sv = bad[0][2]
+            sc = {'kind': 'noisy_reproducible', 'via': via, 'noise_type': 'SEVERE_GAUSSIAN', 'seed': sv,
+                  'base': {'params': [{'name': 'x'}], 'metrics': [{'name': 'obj', 'goal': 'MINIMIZE'}], 'default_value': 2.0}, 'batch': [{'params': {'x': 0.5}}]}
+            obs = run_replay(sc)
+            rep = (not obs['reproducible']) if 'reproducible' in obs else None
+            res_kind = report.VIOLATED if rep else report.UNDECIDED
+            chk.obligation(name, fq, 'paths', res_kind, dt, detail=dict(detail, failing=[b[1] for b in bad[:4]], seed=sv,
+                                                                       reason='decided on the path; native replay %s' % ('reproduced' if rep else 'did not reproduce')),
+                           model='\n'.join(b[1] for b in bad[:6]) + '\nseed = %d' % sv,
+                           replay={'scenario': sc, 'observed': obs, 'replay_cmd': '/venv/bin/python %s <scenario.json>' % REPLAY}, reproduced=True if rep else None)
+    # factory plumbing: noise_seed -> from_type(seed=...) -> default_rng(...), end to end
+    t0 = time.time()
+    fq = 'SingleObjectiveExperimenterFactory.__call__'
+    chk.function(EF, fq)
+    paths = E.explore(factory_seed_entry, max_paths=400, deadline_s=40)
+    bad_paths = sorted({p.value for p in paths if p.kind == 'unsupported'})
+    if bad_paths:
+        chk.obligation('C20.Factory.seeded_rng.supported', fq, 'checker', report.ERROR, 0.0, detail='; '.join(bad_paths)[:800])
+        return
+    res = {}
+    for p in paths:
+        if p.kind not in ('return', 'raise'):
+            continue
+        run = p.run
+        if run.seed is None:
+            raise Unsupported('the factory seed argument reads %d fields' % len(run.factory_fields))
+        case = seed_case(run, run.seed)
+        rngs = run.rng_constructions
+        checks = [rng_arg_ok(r.seed_arg, {run.seed.decl().name()}) for r in rngs]
+        ok = all(c[0] for c in checks) and (len(rngs) >= 1 or p.kind == 'raise')
+        res.setdefault('C20.Factory.seeded_rng[%s]' % case, []).append(
+            (ok, '%s: from_type(seed=%r) -> %s' % (p.describe(), run.factory_arg, '; '.join(c[1] for c in checks) or 'no generator'), seed_value(run, run.seed)))
+    if not res:
+        chk.obligation('C20.Factory.seeded_rng.vacuity', fq, 'checker', report.ERROR, 0.0, detail='no path')
+    for name, items in sorted(res.items()):
+        bad = [i for i in items if not i[0]]
+        detail = {'paths': len(items), 'rule': 'noise_seed field -> seed argument of from_type -> default_rng argument, for every not-None field value'}
+        if not bad:
+            chk.obligation(name, fq, 'paths', report.PROVED, (time.time() - t0) / len(res), detail=detail)
+            continue
+        sc = {'kind': 'noisy_reproducible', 'via': 'factory', 'noise_type': 'SEVERE_GAUSSIAN', 'seed': bad[0][2],
+              'base': {'params': [{'name': 'x'}], 'metrics': [{'name': 'obj', 'goal': 'MINIMIZE'}], 'default_value': 2.0}, 'batch': [{'params': {'x': 0.5}}]}
+        obs = run_replay(sc)
+        rep = (not obs['reproducible']) if 'reproducible' in obs else None
+        chk.obligation(name, fq, 'paths', report.VIOLATED if rep else report.UNDECIDED, (time.time() - t0) / len(res),
+                       detail=dict(detail, failing=[b[1] for b in bad[:4]], seed=bad[0][2]), model='\n'.join(b[1] for b in bad[:6]),
+                       replay={'scenario': sc, 'observed': obs, 'replay_cmd': '/venv/bin/python %s <scenario.json>' % REPLAY}, reproduced=True if rep else None)
+
+
 # =========================================================================================== problem_statement() by value, all classes
 def ps_entry(construct, nbases=1, bounded=None):
     def entry(it):
@@ -2143,6 +2337,24 @@ def ps_scenario(layer_of):
     return scenario
 
 
+def ps_witness(layer_fn):
+    def scenario():
+        sc = {'kind': 'problem_statement', 'base': {'params': [{'name': 'a'}, {'name': 'b'}], 'metrics': [{'name': 'obj', 'goal': 'MINIMIZE'}]},
+              'batch': [], 'script': []}
+        sc['wrappers'] = layer_fn(sc, ['a', 'b'])
+        return sc
+    return scenario
+
+
+PS_WITNESS_LAYERS = {
+    'Permuting': lambda sc, names: [{'module': 'permuting_experimenter', 'class': 'PermutingExperimenter', 'kwargs': {'parameters_to_permute': [], 'seed': 1}}],
+    'Sparse': lambda sc, names: [{'module': 'sparse_experimenter', 'class': 'SparseExperimenter', 'kwargs': {'prefix': '_SP', 'sparse_params': [{'name': 'q'}]}}],
+    'Numpy': lambda sc, names: [{'module': 'numpy_experimenter', 'class': 'NumpyExperimenter', 'kwargs': {}}],
+    'Switch': lambda sc, names: [{'module': 'switch_experimenter', 'class': 'SwitchExperimenter', 'kwargs': {'extra': 1}}],
+    'MultiObjective': lambda sc, names: [{'module': 'multiobjective_experimenter', 'class': 'MultiObjectiveExperimenter', 'kwargs': {'names': ['m1', 'm2']}}],
+}
+
+
 PS_CLASSES = [
     # short, module, class, construct, nbases, same metrics as the wrapped experimenter, replay layer
     ('Shifting', SH, 'ShiftingExperimenter', sh_construct, 1, True,
@@ -2183,9 +2395,11 @@ def units_problem_statement():
             f = CHK.finding_for(R + k) if CHK is not None else None
             if f is not None:
                 known[R + k] = (f['what'], returns_stored_object)
+        wl = layer or PS_WITNESS_LAYERS.get(short)
+        confirm = {R + k: (ps_witness(wl), n_by_value) for k in ('by_value.fresh_objects', 'by_value.fresh_metric_configs', 'by_value.state_unchanged')} if wl else {}
         out.append(Unit('%s.problem_statement' % cname, short, [(mod, cname + '.problem_statement')], ps_entry(construct, nb), ps_post(short, same),
                         bentry=ps_entry(construct, nb, BOUNDED) if layer else None, scenario=ps_scenario(layer) if layer else None,
-                        native=native, known=known))
+                        native=native, known=known, confirm=confirm))
     return out
 
 
@@ -2478,6 +2692,11 @@ def main(tier):
     except Exception as e:
         import traceback
         chk.error('C20.Noisy.readframe', 'checker crashed: %r\n%s' % (e, traceback.format_exc()[-1200:]))
+    try:
+        noisy_seed_obligations(chk)
+    except Exception as e:
+        import traceback
+        chk.error('C20.Noisy.seeded_rng', 'checker crashed: %r\n%s' % (e, traceback.format_exc()[-1500:]))
     try:
         native_notes(chk)
     except Exception as e:
